@@ -410,7 +410,7 @@ def failing_after(ctx, plugin, cands, which, tag):
     try:
         items = evaluate(ctx, plugin, cands)
         bm, bs = diagnose(ctx, plugin, [it[3] for it in items], tag)
-    except RuntimeError:
+    except Exception:
         return None
     bad = bm if which == "MODEL" else bs
     return items[bad[0]] if bad else None
@@ -514,6 +514,15 @@ def main(argv):
     ctx = Ctx(pid, a.tier, a.seed)
     try:
         rc = run_check(ctx, plugin, a.replay)
+    except Exception as e:
+        # an internal error (typically: an observation the plugin cannot interpret while shrinking or searching) is
+        # never counted as success: the correspondence could not be established
+        import traceback
+        path = write_replay(ctx, plugin, "broken-correspondence", "driver-error",
+                            {"what": "the check could not be completed", "log": traceback.format_exc()[-4000:],
+                             "obligation": "correspondence batch lemmas"})
+        ctx.say("VIOLATION property=%s replay=%s no-failing-input-found" % (pid, path))
+        rc = 1
     finally:
         if not os.environ.get("VERIF_KEEP_WORK"):
             ctx.cleanup()
@@ -577,9 +586,11 @@ def run_check(ctx, plugin, replay):
     t_gen = time.time()
     try:
         items = evaluate(ctx, plugin, cases)
-    except RuntimeError as e:
+    except Exception as e:      # executor crash (RuntimeError) or an observation line the plugin cannot parse
+        import traceback
         path = write_replay(ctx, plugin, "broken-correspondence", "executor-crash",
-                            {"what": "the executor crashed outside a guarded operation", "log": str(e)[-4000:],
+                            {"what": "the executor crashed outside a guarded operation, or printed an observation that does "
+                                     "not have the agreed format", "log": (traceback.format_exc() + "\n" + str(e))[-4000:],
                              "obligation": "correspondence batch lemmas"})
         ctx.say("VIOLATION property=%s replay=%s no-failing-input-found" % (pid, path))
         write_evidence(ctx, plugin, gate, axioms, [], 0, 0, 1)
